@@ -5,8 +5,8 @@
 
   What is mirrored (read from the code, not from the property):
   * the patch is a dict of merge-patch fields plus a list of transformation functions (`Patch.fns`);
-  * with a status subresource the `status` key is popped and sent to `/status`; `pop('status', None)`
-    cannot tell `status: None` from "no status": the removal of the whole status is dropped;
+  * with a status subresource the `status` key is popped (with a dedicated `absent` sentinel, so
+    `status: None` = "remove the whole status" counts) and sent to `/status` as `{status: …}`;
   * at most four requests, in this order: merge-patch of the body, merge-patch of the status,
     JSON-patch of the body, JSON-patch of the status. The JSON-patch ops are computed ONCE, by applying
     the fns to the freshest body (`patched_body or patch._original`), and split by path (`/status`);
@@ -257,13 +257,10 @@ def doReq (sub : Bool) (env : Env) (k : Kind) (pl : Payload) (st : St) : M St :=
 def bodyPart (sub : Bool) (fields : Kvs) : Kvs :=
   if sub then erase "status" fields else fields
 
-/-- `status_patch = body_patch.pop('status', None) if as_subresource else None` -/
+/-- `status_value = body_patch.pop('status', absent) if as_subresource else absent`: a dedicated
+    sentinel, so `status: None` (remove the whole status) is a status patch like any other. -/
 def statusPart (sub : Bool) (fields : Kvs) : Option J :=
-  if sub then
-    match lookup "status" fields with
-    | some null => none
-    | x => x
-  else none
+  if sub then lookup "status" fields else none
 
 def optBeq : Option J → Option J → Bool
   | none, none => true
